@@ -97,8 +97,11 @@ MODS = ("inv", "miss", "far")
 # (the scipy_minimize start points, the terms)
 MODS_WITH_NONE = MODS + ("none",)
 PARTS_WITH_NONE = ("terms", "scipy")
+# "huge": one observed value of the other member is an aberrant but finite measurement (1e30): its own attachment overflows in
+# single precision (+inf) - the other individuals' terms, decisions and results are still their own, and totals are still sums
+PARTS_WITH_HUGE = {"quick": ("terms", "sampler"), "thorough": ("terms", "sampler", "mcmc")}
 MOD_LABEL = {"inv": "other values", "miss": "other missing pattern", "far": "other ages, extreme values, other latent values",
-             "none": "no observed value at all"}
+             "none": "no observed value at all", "huge": "an aberrant (1e30) measurement"}
 
 # latent values attached to the individual, in prior standard deviations from the prior mode
 LATENT_Z = {
@@ -183,6 +186,13 @@ def individual_rows(i, dim, binary, mod):
             age = age + 3.25
         elif mod == "none":
             vv = [NAN for _ in vv]
+        elif mod == "huge":
+            if binary:
+                vv = [v if v != v else round(1.0 - v, 6) for v in vv]  # binary outcomes have no aberrant value: other values
+            elif k == 0:
+                obs = [j for j, v in enumerate(vv) if v == v]
+                if obs:
+                    vv[obs[0]] = 1e30
         elif mod is not None:
             raise ValueError(mod)
         rows.append((i, age, vv))
@@ -1006,6 +1016,8 @@ def run_shard(shard):
     else:
         cohorts = ordered_cohorts(shard["pool"], shard["kmax"])
     kinds = MODS_WITH_NONE if part in PARTS_WITH_NONE else MODS
+    if part in PARTS_WITH_HUGE[shard.get("tier", "quick")] and not shard.get("prefit") and shard.get("script") != HIGH_U_SCRIPT:
+        kinds = kinds + ("huge",)
     for ids in cohorts:
         maps = modification_maps(ids, kinds)
         if len(ids) == 3 and shard["subsets"] == "all-others":
